@@ -133,6 +133,38 @@ def check_item(ctx, kind, frames):
                 ctx.fail(f"{kind}/present-frame-value", f"{kind}: frame {i} decodes to {g}, stored {f}")
     if outs[0] != outs[1]:
         ctx.fail(f"{kind}/decode-not-deterministic", f"{kind}: two decodes of the same bytes differ (memory-state dependent)")
+    if n >= 3:
+        # views of what was decoded (every other frame; all but the first frame) wrapped in a NEW item: its runs and values are those of the views
+        src = it2
+        for tag, sl in (("every-other-frame", slice(None, None, 2)), ("tail", slice(1, None))):
+            want = frames[sl]
+            if kind == "data3D":
+                from basictdf.tdfData3D import MarkerTrack
+                new = MarkerTrack("v", src.data[sl])
+            elif kind == "emg":
+                from basictdf.tdfEMG import EMGTrack
+                new = EMGTrack("v", src.data[sl])
+            elif kind == "force3D":
+                from basictdf.tdfForce3D import ForceTorqueTrack
+                new = ForceTorqueTrack("v", src.application_point[sl], src.force[sl], src.torque[sl])
+            else:
+                from basictdf.tdfForcePlatformsData import ForcePlatformData
+                new = ForcePlatformData(src.application_point[sl], src.force[sl], src.torque[sl])
+            ok, wv = ctx.must(lambda: write(new), f"{kind}/encode-views", f"encoding a {kind} track made of views of a decoded one")
+            if not ok:
+                return
+            dv = reftdf.Dec(wv)
+            sv = []
+            try:
+                if has_label:
+                    dv.string(256)
+                stored_v = reftdf._dec_rle(dv, len(want), pf, sv)
+            except reftdf.RefError as e:
+                ctx.fail(f"{kind}/views-unparseable", f"{kind}: a track made of views ({tag}) of a decoded track does not parse: {e}")
+                return
+            if [tuple(x) for x in sv[0]] != reftdf.runs_of(want) or stored_v != want:
+                ctx.fail(f"{kind}/views-of-decoded-wrong", f"{kind}: a new track made of views ({tag}) of a decoded track is written with runs {sv[0][:5]} / other values "
+                                                           f"than the views hold (runs {reftdf.runs_of(want)[:5]})")
     # the same track object, its gap pattern changed in place, written again: the run table must follow the data it holds NOW
     frames2 = frames[1:] + frames[:1] if n > 1 else [None if frames[0] is not None else (0x3F800000 if pf == 1 else [0x3F800000] * pf)]
     if frames2 != frames:
